@@ -849,7 +849,13 @@ class Prop(fw.PropBase):
             raise fw.Broken('correspondence', 'harness precondition and hist_wfb differ on %r' % (cases[i][:30],))
         dis, specdis, compared = [], [], 0
         for ci, (c, r) in enumerate(zip(cases, impl)):
+            # outside the precondition of the statement (a feature with end < start, an unorderable pair, a reversed range,
+            # an unknown lookup variant) the behaviour is not constrained: model and implementation are compared on the
+            # longest prefix of the history that is inside it
+            wf_len = len(c) if pre[ci] else next(k for k in range(len(c) + 1) if not wf_history(c[:k + 1])) if c else 0
             for oi, (op, a) in enumerate(zip(c, r)):
+                if oi >= wf_len:
+                    break
                 lo, hi = spans[ci][oi]
                 gi = self.canon_impl(op, a)
                 gm = self.canon_model(op, mres[ci][lo:hi])
